@@ -10,6 +10,7 @@ import numpy as np
 from ..common import q2s, run_driver, seed_rng, silence_stdout
 from ..meshgen import Batch, op_json, op_line, random_op
 from ..meshlib import PyMesh, canon, dump_leaves, dump_mesh, enc
+from ..param_tie import correspond_generated, generated_twin
 
 # which `MeshParametrized` guard the model is run with: 0 = the pinned code (`len(self.roots) < 3`, counts the roots
 # of ALL time slabs), 1 = the repaired code (`len(initial_space_mesh) - 1 < 3`, counts one slab)
@@ -17,13 +18,18 @@ GUARD_PER_SLAB = 1
 GUARD_PER_SLAB = int(os.environ.get('C18_GUARD_PER_SLAB', GUARD_PER_SLAB))   # override for experiments only
 
 from ..meshops_tie import PROP_MOD_C18 as MESHOPS_PROP_MOD, TRUSTED as MESHOPS_TRUSTED  # noqa: E402
+from ..param_tie import PROP_MOD as PARAM_PROP_MOD, PROP_MOD_CIRCLE as PARAM_PROP_MOD_CIRCLE, TRUSTED as PARAM_TRUSTED  # noqa: E402
 
-PROP_MODS = ['Stbem.Props.C18', MESHOPS_PROP_MOD]
+PROP_MODS = ['Stbem.Props.C18', MESHOPS_PROP_MOD, PARAM_PROP_MOD, PARAM_PROP_MOD_CIRCLE]
 RULE = ('(a) curves: the real shipped curve objects (UnitSquare, LShape, UnitInterval: binary64 values are exact on the '
         'dyadic parameter lattice; PiSquare structurally: directions / base points exactly, parameters divided by pi) '
         'and random axis-parallel integer / dyadic polygons built by the real PiecewisePolygon constructor are compared '
         'with the Lean polygon model: acceptance, pw_start, (x_start, a, direct) of every piece, eval() on the lattice '
-        'k/4 incl. all break points and out-of-range parameters, every pw_gamma[i] alone. (b) meshes: the real '
+        'k/4 incl. all break points and out-of-range parameters, every pw_gamma[i] alone; EVERY such request is also put to the '
+        'definitions REGENERATED from src/parametrization.py on this run (`gparam`, translate/paramgen.py; they contain the '
+        'constructor\'s finite-difference self check, so a polygon the real constructor rejects must be rejected by them), plus '
+        'the shipped classes through their generated constructors, `circle` with rational stand-ins for cos / sin on the real '
+        'function, `line` on Pythagorean sides, and the NumPy prelude of the generated file against NumPy itself. (b) meshes: the real '
         'MeshParametrized for every curve x time grids with 1..6 slabs x space grids (None, the break points, break '
         'points plus extra points, grids missing break points) against `mesh initp` of the model (leaf dump with piece '
         'index, vertices, neighbours, flags), followed by random refinement histories compared after every operation. '
@@ -40,6 +46,7 @@ TRUSTED = [
     'constructor are preconditions; the finite-difference arc-length sampling of PiecewiseParametrization.__init__ '
     '(it can only reject); the circle is treated over the reals with Mathlib cos/sin, not executed',
     MESHOPS_TRUSTED,
+    PARAM_TRUSTED,
 ]
 ASSUMPTIONS = ['polygon coordinates and running arc lengths are exactly representable (integers / dyadic numbers); '
                'np.select returns the first matching choice',
@@ -291,6 +298,17 @@ def correspond_random_polygons(res, tier, rng, lines, expect, what, add):
         add('param piece %d %s %d %s' % (cl, ev, i, enc(xs)), ' '.join(show_pt(arr[:, j]) for j in range(len(xs))),
             (ev, 'piece %d' % i))
     out = run_driver(lines)
+    # the same requests answered by the definitions regenerated from src/parametrization.py (they model the finite-difference
+    # self check of the constructor: no exception for polygons the real constructor rejects)
+    twins = [(generated_twin(l), want, w) for l, want, w in zip(lines, expect, what)]
+    gout = run_driver([t[0] for t in twins])
+    res.notes['generated_model_curve_lines'] = len(twins)
+    for (line, want, w), got in zip(twins, gout):
+        g = 'err' if got.startswith('err ') else got
+        if g != want:
+            res.broken_obligation('correspondence C18: definitions REGENERATED from src/parametrization.py (gparam) and the real code '
+                                  'differ (%s)' % (w[1], ), 'line: %s\npython: %s\nmodel:  %s' % (line[:400], want[:1500], got[:1500]))
+            break
     for line, want, got, w in zip(lines, expect, out, what):
         g = 'err' if got.startswith('err ') else got
         if g == want:
@@ -500,13 +518,25 @@ def correspond_meshes(res, tier, rng):
 
 def translate(res):
     """Regenerates lean/Stbem/Gen/MeshOps.lean (MeshParametrized.__init__ and the refinement drivers the histories run
-    through) from src/mesh.py; a construct outside the translated fragment is a broken obligation."""
+    through) from src/mesh.py and lean/Stbem/Gen/ParamGen.lean / ParamGenR.lean (all of src/parametrization.py); a construct
+    outside the translated fragments is a broken obligation."""
     from ..meshops_tie import translate_meshops
-    translate_meshops(res)
+    from ..param_tie import translate_paramgen
+    errs = []
+    for f in (translate_meshops, translate_paramgen):
+        try:
+            f(res)
+        except Exception as exc:   # both translators run; the first failure is reported by ./check, the others here
+            errs.append(exc)
+    for exc in errs[1:]:
+        res.broken_obligation('translator', repr(exc))
+    if errs:
+        raise errs[0]
 
 
 def correspond(res, tier):
     correspond_curves(res, tier, seed_rng(res.seed, 'C18a'))
+    correspond_generated(res, seed_rng(res.seed, 'C18g'), tier)
     correspond_meshes(res, tier, seed_rng(res.seed, 'C18b'))
 
 
